@@ -59,18 +59,19 @@ Inductive task :=
 | TStopRead (c : nat) (pin : bool)
 | TSend (c : nat) (pin : bool)
 | TAddTimer (c : nat)               (* TimerQueue::addTimerInLoop for a forceCloseWithDelay made off-loop: weak *)
-| TOther.                           (* a functor that does not concern any connection (Connector::stopInLoop) *)
+| TOther                            (* a functor that does not concern any connection (Connector::stopInLoop) *)
+| TSetCb (c : nat).                 (* ~TcpClient on a foreign thread: setCloseCallback(conn, detail::removeConnection), strong *)
 
 Definition task_conn (t : task) : nat :=
   match t with
   | TEstablish c | TRemove c | TDestroy c | TForceClose c | TUserCb c => c
-  | TShutdown c _ | TStartRead c _ | TStopRead c _ | TSend c _ | TAddTimer c => c
+  | TShutdown c _ | TStartRead c _ | TStopRead c _ | TSend c _ | TAddTimer c | TSetCb c => c
   | TOther => 0
   end.
 (* does the functor object hold a shared_ptr to its connection *)
 Definition task_strong (t : task) : bool :=
   match t with
-  | TEstablish _ | TRemove _ | TDestroy _ | TForceClose _ | TUserCb _ => true
+  | TEstablish _ | TRemove _ | TDestroy _ | TForceClose _ | TUserCb _ | TSetCb _ => true
   | TShutdown _ p | TStartRead _ p | TStopRead _ p | TSend _ p => p
   | TAddTimer _ | TOther => false
   end.
@@ -85,7 +86,9 @@ Definition q_all (l : lq) : list task := q_spent l ++ q_batch l ++ q_pend l.
 Definition q_idle (l : lq) : bool :=
   match q_batch l, q_spent l with [], [] => true | _, _ => false end.
 
-Inductive api := AShutdown | AForceClose | AForceCloseDelay | ASend | AStartRead | AStopRead.
+Inductive api := AShutdown | AForceClose | AForceCloseDelay | ASend | AStartRead | AStopRead
+| ADtor.   (* not a TcpConnection call: ~TcpClient running on a foreign thread (its local copy of connection_ is the reference) *)
+Definition is_dtor (a : api) : bool := match a with ADtor => true | _ => false end.
 (* a foreign thread inside an API call on connection c (it holds a reference for the duration) *)
 Record call := mkCall {
   a_thr : nat; a_conn : nat; a_api : api;
@@ -402,6 +405,7 @@ Definition api_test (a : api) (k : lc) : bool :=
   | AShutdown | ASend => cstate_eqb (k_st k) Connected
   | AForceClose | AForceCloseDelay => k_closable k
   | AStartRead | AStopRead => true
+  | ADtor => false
   end.
 Definition api_stores (a : api) : bool :=
   match a with AShutdown | AForceClose | AForceCloseDelay => true | _ => false end.
@@ -499,6 +503,11 @@ Definition run_task (s : sys) (l : nat) (t : task) (full wc : bool) : M :=
       | None => Fault
       end
   | TOther => ret s
+  | TSetCb c =>
+      match getc s c with
+      | Some k => if k_alive k then ret (put s c (set_own k CbDetail (k_mapped k) (k_urefs k) (k_delayed k))) else Fault
+      | None => Fault
+      end
   end.
 
 Definition ev_step (strict : bool) (s : sys) (c : nat) (e : kev) : M :=
@@ -606,9 +615,18 @@ Definition step (strict : bool) (s : sys) (o : op) : M :=
       | None => Rejected
       end
   | XBegin u c a =>
+      if strict && is_dtor a then Rejected else            (* H6: a TcpClient is destroyed on its loop thread (F-13) *)
       match find_call u (s_calls s) with
       | Some _ => Rejected
-      | None => on_conn s c (fun k => ret (set_calls s (s_calls s ++ [mkCall u c a (api_test a k) (negb (api_stores a))])))
+      | None =>
+          if is_dtor a
+          then (* ~TcpClient, under its mutex: unique = connection_.unique(); conn = connection_ *)
+               if s_cli s && match s_cliconn s with Some c' => c' =? c | None => false end
+               then (* two references from here on: the local copy and the setCloseCallback functor, which is bound before
+                       runInLoop is entered (the step ends in front of the queue's lock); XStore turns one into the queued task *)
+                    on_conn s c (fun k => ret (set_calls s (s_calls s ++ [mkCall u c a (holders s c =? 1) false; mkCall u c a (holders s c =? 1) false])))
+               else Rejected
+          else on_conn s c (fun k => ret (set_calls s (s_calls s ++ [mkCall u c a (api_test a k) (negb (api_stores a))])))
       end
   | XStore u =>
       match find_call u (s_calls s) with
@@ -616,7 +634,13 @@ Definition step (strict : bool) (s : sys) (o : op) : M :=
           if a_stored a then Rejected else
           match getc s (a_conn a) with
           | Some k =>
-              if strict && negb (Bool.eqb (api_test (a_api a) k) (a_loaded a)) then Rejected else
+              if is_dtor (a_api a) then
+                (* runInLoop(setCloseCallback(conn, detail::removeConnection)) from the foreign thread; forceClose() if unique *)
+                let s1 := set_calls s (drop_call u (s_calls s) ++ [mkCall u (a_conn a) (a_api a) (a_loaded a) true]) in
+                let s2 := enq s1 (k_loop k) (TSetCb (a_conn a)) in
+                ret (if a_loaded a then force_close s2 (a_conn a) else s2)
+              else
+              if strict && a_loaded a && negb (api_test (a_api a) k) then Rejected else   (* H3 = Conn_Race.set_ok *)
               let s1 := set_calls s (drop_call u (s_calls s) ++ [mkCall u (a_conn a) (a_api a) (a_loaded a) true]) in
               ret (if a_loaded a && api_stores (a_api a)
                    then put s1 (a_conn a) (set_life k Disconnecting (k_ups k) (k_downs k)) else s1)
@@ -631,6 +655,11 @@ Definition step (strict : bool) (s : sys) (o : op) : M :=
           let c := a_conn a in
           match getc s c with
           | Some k =>
+              if is_dtor (a_api a) then
+                (* the members of the TcpClient die: connection_ and the local copy are released *)
+                let s1 := set_calls s (drop_call u (s_calls s)) in
+                finish (ret (set_cli (put s1 c (set_own k (k_ccb k) false (k_urefs k) (k_delayed k))) false None)) (foreign_thr u)
+              else
               let raw := match a_api a with AForceClose | AForceCloseDelay => false | _ => true end in
               if strict && raw && a_loaded a && negb pin then Rejected else
               let s1 := set_calls s (drop_call u (s_calls s)) in
@@ -643,6 +672,7 @@ Definition step (strict : bool) (s : sys) (o : op) : M :=
                   | ASend => enq s1 (k_loop k) (TSend c pin)
                   | AStartRead => enq s1 (k_loop k) (TStartRead c pin)
                   | AStopRead => enq s1 (k_loop k) (TStopRead c pin)
+                  | ADtor => s1
                   end
                 else s1 in
               finish (ret s2) (foreign_thr u)
